@@ -10,6 +10,7 @@ package main
 
 import (
 	"strings"
+	"time"
 
 	"github.com/tinode/chat/server/auth"
 	"github.com/tinode/chat/server/logs"
@@ -96,6 +97,16 @@ func topicInit(t *Topic, join *ClientComMessage, h *Hub) {
 			msg := <-t.exit
 			msg.done <- true
 		}
+
+		// The hub may have looked the topic up just before it was removed from the cache and queue
+		// a request for it after the queues were emptied above: keep disposing of such late arrivals
+		// for a short while, otherwise they are never answered.
+		go func() {
+			for i := 0; i < 10; i++ {
+				time.Sleep(50 * time.Millisecond)
+				t.rejectPendingRequests(h)
+			}
+		}()
 
 		return
 	}
